@@ -189,8 +189,30 @@ func reconnectHistories(tier string, seed uint64, res *Result) error {
 				emu.Unlock()
 				return
 			}
-			defer mc.Close()
 			var steps, obs []string
+			// a call, Close or Open that never returns (a lock kept by an earlier failed exchange, a
+			// connection that cannot be torn down) is a violation with this history as its input
+			hung := false
+			var bounded func(what string, f func()) bool
+			defer func() {
+				if !hung {
+					bounded("Close() at the end of the history", func() { mc.Close() })
+				}
+			}()
+			bounded = func(what string, f func()) bool {
+				done := make(chan struct{})
+				go func() { f(); close(done) }()
+				select {
+				case <-done:
+					return true
+				case <-time.After(3 * time.Second):
+					hung = true
+					res.Add(Finding{Kind: "property", Check: "reconnect-hang", Line: fmt.Sprintf("%s history %s ; then %s", kind, strings.Join(steps, " ; "), what),
+						Impl: what + " did not return within 3 s (timeout 70 ms)", Expect: "returns",
+						Note: "after a cut exchange, Close and Open must work and the same client must complete its next request"})
+					return false
+				}
+			}
 			link := "absent" // absent | live | closed | dead (peer hung up: only close/open may follow)
 			afterReopen := false
 			n := 5 + r.Intn(6)
@@ -251,7 +273,10 @@ func reconnectHistories(tier string, seed uint64, res *Result) error {
 						}
 					}
 					p.mu.Unlock()
-					o := op.Exec(mc)
+					var o string
+					if !bounded("call "+op.Line(), func() { o = op.Exec(mc) }) {
+						return
+					}
 					// the call may return before the peer has read the request (stale input made it
 					// fail early): wait until the peer is done with it, so that nothing of this
 					// exchange is mistaken for the next one. Nothing sent: the wait runs out.
@@ -290,7 +315,9 @@ func reconnectHistories(tier string, seed uint64, res *Result) error {
 						link = "dead"
 					}
 				case choice == 7: // close
-					mc.Close()
+					if !bounded("Close()", func() { mc.Close() }) {
+						return
+					}
 					steps = append(steps, "close")
 					obs = append(obs, "done:1")
 					if link != "absent" {
@@ -312,7 +339,10 @@ func reconnectHistories(tier string, seed uint64, res *Result) error {
 					p.mu.Lock()
 					before := p.accepts
 					p.mu.Unlock()
-					err := mc.Open()
+					var err error
+					if !bounded("Open()", func() { err = mc.Open() }) {
+						return
+					}
 					if err == nil && !p.udp { // the dial returns before the peer's accept loop has run
 						for w := 0; w < 400; w++ {
 							p.mu.Lock()
